@@ -41,6 +41,9 @@ func runC09(p *load.Program, r *oblig.Report) {
 	c09ReaderRunDefers(p, r)
 	c09FetchAfterClose(p, r)
 	c09PoolReady(p, r)
+	c09FetchLoopTestsContext(p, r)
+	c09WriterLookupDeadline(p, r)
+	shareRules(r, "C09", "C09.R9 the group is left with the member id the coordinator knows (C15.R9)", func(sub *oblig.Report) { c15KeepMemberID(p, sub, "C15.R9 the member id survives a failed re-join") })
 }
 
 // c09ReaderRunDefers: Reader.Close waits for r.done; the group (LeaveGroup, coordinator connection) must be closed
